@@ -162,6 +162,13 @@ class FieldData:
       The deleted value or None, if the field was not defined.
     """
     if tagname in self.tagnames:
+      if self._gfa and self.__class__.STORAGE_KEY == "name" and \
+          tagname == self.__class__.NAME_FIELD:
+        # the line is registered under the value of the tag
+        value = self._data[tagname]
+        self._set_existing_field(tagname, None)
+        self._datatype.pop(tagname, None)
+        return value
       if tagname in self._datatype:
         self._datatype.pop(tagname)
       return self._data.pop(tagname)
